@@ -249,8 +249,10 @@ class Interp(ExprMixin, StmtMixin):
                 init = path + ".__init__"
                 if init in R.CONTRACTS:
                     return self.apply_contract(R.CONTRACTS[init], args, kwargs, node, constructor=True)
-            if self.st.spec_mode and ":" in path:
-                pass
+            if ":" in path and not self.st.spec_mode:
+                r_ = self.inline_helper(path, args, kwargs, node)
+                if r_ is not NotImplemented:
+                    return r_
             raise Unsupported("call to %s has no contract / theory (line %s)" % (path, getattr(node, "lineno", "?")))
         raise Unsupported("call of %r (line %s)" % (callee, getattr(node, "lineno", "?")))
 
@@ -288,6 +290,50 @@ class Interp(ExprMixin, StmtMixin):
             self.mi, st.env = saved_mi, saved_env
         return obj
 
+    def inline_helper(self, path, args, kwargs, node, recv=None):
+        """A repo function / method without a contract (typically a helper a refactoring introduced): its body is executed in place,
+        symbolically, on the actual arguments - the caller's obligations then speak about the real computation. Only plain
+        (undecorated, non-generator) functions, at most two levels deep, never recursively; loops in the helper need invariants
+        the sidecar does not have, so they leave L1's reach as before."""
+        mi, fnode = source.find_function(path)
+        if fnode is None or path in R.CONTRACTS:
+            return NotImplemented
+        deco = [d for d in fnode.decorator_list if not (isinstance(d, ast.Name) and d.id == "staticmethod")]
+        if deco or any(isinstance(n, (ast.Yield, ast.YieldFrom)) for n in ast.walk(fnode)):
+            return NotImplemented
+        stack = getattr(self, "_inline_stack", [])
+        if path in stack or len(stack) >= 2:
+            return NotImplemented
+        st = self.st
+        is_method = recv is not None
+        bound = self.bind_args(fnode, ([recv] if is_method else []) + list(args), kwargs)
+        env = {}
+        saved_mi, saved_env = self.mi, st.env
+        for n, v in bound.items():
+            if isinstance(v, tuple) and v and v[0] == "default":
+                self.mi, st.env = mi, {}
+                try:
+                    v = self.eval(v[1])
+                finally:
+                    self.mi, st.env = saved_mi, saved_env
+            env[n] = v
+        self.dropped.add("inlined helper without a contract: %s" % path)
+        self._inline_stack = stack + [path]
+        saved_loops = self.loop_ordinals
+        self.mi, st.env = mi, env
+        try:
+            # loops of the helper are not in the caller's ordinal table: they have no invariant (Unsupported)
+            self.loop_ordinals = {}
+            try:
+                self.exec_block(fnode.body)
+                return PyC(None)
+            except ReturnEx as r:
+                return r.value
+        finally:
+            self.mi, st.env = saved_mi, saved_env
+            self._inline_stack = stack
+            self.loop_ordinals = saved_loops
+
     def call_closure(self, clo, args):
         st = self.st
         saved = st.env
@@ -316,6 +362,10 @@ class Interp(ExprMixin, StmtMixin):
             tgt = source.resolve_method(cls, bm.name)
             if tgt and tgt in R.CONTRACTS:
                 return self.apply_contract(R.CONTRACTS[tgt], [recv] + list(args), kwargs, node)
+            if tgt and R.METHODS.get((tag, bm.name)) is None and R.METHODS.get((None, bm.name)) is None and not self.st.spec_mode:
+                r_ = self.inline_helper(tgt, args, kwargs, node, recv=recv)
+                if r_ is not NotImplemented:
+                    return r_
         if h is None:
             h = R.METHODS.get((None, bm.name))
         if h is None:
@@ -736,6 +786,22 @@ class Interp(ExprMixin, StmtMixin):
     def m_pop(self, recv, args, kwargs, bm, node):
         """list.pop() (last element) on a locally held list."""
         if args:
+            bt_ = base_tag(getattr(recv, "tag", None)) or ""
+            if isinstance(recv, ZV) and (bt_.startswith("Dict") or bt_ == "dict"):
+                # dict.pop(key[, default]): removes the key; KeyError without a default when it is missing
+                k = as_v(args[0])
+                if len(args) == 1:
+                    self.partial(L.has(recv.term, k), "KeyError", node, "pop-key")
+                    val = self.retag(L.get(recv.term, k), self.val_tag(recv))
+                else:
+                    vt = self.val_tag(recv)
+                    dflt = args[1]
+                    tag = vt
+                    if isinstance(dflt, PyC) and dflt.value is None and vt and not vt.startswith("Opt["):
+                        tag = "Opt[%s]" % vt
+                    val = ZV(z3.If(L.has(recv.term, k), L.get(recv.term, k), as_v(dflt)), tag)
+                self._writeback(bm, ZV(L.dict_del(recv.term, k), recv.tag))
+                return val
             raise Unsupported("pop with an argument on %r" % (recv,))
         if isinstance(recv, PySeq):
             if not recv.items:
@@ -858,6 +924,10 @@ class Interp(ExprMixin, StmtMixin):
             # it may finish normally or raise anything
             self.st.effects = L.fresh("eff_body")
             self.st.env["ghost_body_effects"] = ZV(self.st.effects, "seq")
+            if "profiler" in R.FIELDS:
+                # ... and may call sys.setprofile itself: the interpreter's profiler slot is unknown after the body
+                self.heap_array("profiler")
+                self.st.heap["profiler"] = L.fresh("heap_profiler_body", z3.ArraySort(L.V, L.V))
             if self.branch(L.fresh("body_raises", L.B), node.lineno):
                 self.body_raised = True
                 raise RaisedEx(ExcVal("BaseException", exact=False), node.lineno)
